@@ -161,6 +161,7 @@ def gen_table(rng, big=False):
 
 def gen_rows(rng, t, n):
     rows = []
+    id_base = rng.choice([3, 7, 40, 1000])
     seen = {}
     ucols = [tuple(u["cols"]) for u in t["uniques"]] + [tuple(i["cols"]) for i in t["indexes"] if i["unique"]]
     if t["pk"]:
@@ -180,7 +181,8 @@ def gen_rows(rng, t, n):
                 st = t["stypes"][c["name"]]
                 v = None if (c["nullable"] and rng.random() < 0.25) else ({"i": rng.choice([0, 1])} if st["kind"] == "bool" else {"t": rng.choice(["a", "b"])})
             elif c["name"] == "id" and c["pk"]:
-                v = {"i": len(rows) + 1} if c["ty"] == "INTEGER" else {"t": "k%d" % (len(rows) + 1)}
+                # ids with gaps and a start other than 1 (never exactly 1..n: a renumbering by the database must be visible)
+                v = {"i": id_base + 3 * len(rows) + (len(rows) % 2)} if c["ty"] == "INTEGER" else {"t": "k%d" % (len(rows) + 1)}
             elif c["nullable"] and rng.random() < 0.25:
                 v = None
             else:
